@@ -31,7 +31,7 @@ chk("C24", "MIR dominance: effect-table calls dominated by enforce_sandbox false
     "Trusted: rustc's MIR and callee resolution; the effect table (std::fs/process/net/stdin/Path probes); dependency internals are not walked. One accepted probe (source_file canonicalize) and one file read (check_snippet's import resolution, whose refusal shape under the sandbox is re-checked) are allow-listed with their reasons.",
     "DESIGN.md section 4 C24")
 
-chk("C25", "MIR CFG: limit comparisons edge-dominate the step (edge-removal reachability), tick increment dominance, frame-push placement, config store dominance, blocking-call guards; thorough: loop and recursion inventory; no-panic inventory over the sandbox entry points; NATIVE-LOOPS (non-iterator and integer-range loops against a reviewed table) and RECURSION inventories; blocking table includes file reads",
+chk("C25", "MIR CFG: limit comparisons edge-dominate the step (edge-removal reachability), tick increment dominance, frame-push placement, config store dominance, blocking-call guards; thorough: loop and recursion inventory; no-panic inventory over the sandbox entry points; NATIVE-LOOPS (non-iterator and integer-range loops against a reviewed table) and RECURSION inventories; blocking table includes file reads; the allow-listed import read is excused only while read_src's regular-file guard keeps its shape",
     "Structural necessary conditions of the step budget proved for every path through the interpreter loop: no step without both limit checks, no frame push without a checked step, limits configured before evaluation, blocking calls guarded. Decides those clauses for all programs; does not bound the time of one native step.",
     "Trusted: rustc MIR; the blocking-API table. Deep value nesting inside one step is reported by the thorough tier as a known finding.",
     "DESIGN.md section 4 C25")
@@ -106,32 +106,32 @@ chk("C12", "table inverse check (escape/unescape match arms) + exact regular-lan
     "Trusted: regex-automata's DFA (same engine family as the regex crate), syn parse, Rust's float Display shape. Compound values and parse->equal-value are not decided.",
     "DESIGN.md section 4 C12")
 
-chk("C23", "regex newline-reachability by DFA search selects multi-line token kinds; syntax provenance rules for end line/column of their Position literals and for every byte-offset advance / slice bound in the lexer loop; field-shape of Position::merge and CheckDiagnostic export; POSITION-TRIPLE (each lexer Position literal: start from from_offset(start_offset), end from from_offset(end_offset) or start + one common length); UNIT-MIX over the whole crate",
+chk("C23", "regex newline-reachability by DFA search selects multi-line token kinds; syntax provenance rules for end line/column of their Position literals and for every byte-offset advance / slice bound in the lexer loop; field-shape of Position::merge and CheckDiagnostic export; POSITION-TRIPLE (each lexer Position literal: start from from_offset(start_offset), end from from_offset(end_offset) or start + one common length); POSITION-GROUP / POSITION-PAIRS (MIR, crate-wide: a position edited or assembled from other positions keeps offset, line and column of each end together); UNIT-MIX over the whole crate",
     "Lexical clauses for all input texts: offsets advance only by character-boundary quantities, multi-line tokens take their end line/column from the end offset, merge pairs start fields with the first operand and end fields with the later end, exported line numbers are uniformly 1-based. Other position arithmetic is not decided.",
-    "Trusted: syn parse, regex-automata DFA. Positions computed by checker fixes and the LSP layer are out of scope.",
+    "Trusted: syn parse, regex-automata DFA. Fix positions are covered as far as their field pairing goes (POSITION-GROUP/PAIRS); LSP conversions are under C29; the numerical value of computed offsets is not decided.",
     "DESIGN.md section 4 C23")
 
-chk("C01", "MIR panic-site inventory over the front end's reachable functions with dominance/dataflow discharge rules and a reviewed residue table whose guards are re-checked; parser progress-assertion idiom rule; pop/unpop pairing typestate; LOOP-GUARD (token loops that can reach parse_symbol leave on no progress), D-PROGRESS, KEYWORD-GUARD; guard fingerprints (comparisons canonicalised) and guard-call census on reviewed rows; thorough: NATIVE-LOOPS and RECURSION inventories",
+chk("C01", "MIR panic-site inventory over the front end's reachable functions with dominance/dataflow discharge rules and a reviewed residue table whose guards are re-checked; parser progress-assertion idiom rule; pop/unpop pairing typestate; LOOP-GUARD (token loops that can reach parse_symbol leave on no progress), D-PROGRESS, KEYWORD-GUARD; RECURSION-PROGRESS (every cycle of token-taking parser functions passes a call made after certain progress, or a reviewed edge whose guard is re-checked); residue rows may name establishing calls elsewhere (relies_on); guard fingerprints (comparisons canonicalised) and guard-call census on reviewed rows; thorough: NATIVE-LOOPS and RECURSION inventories",
     "Every panic-capable MIR operation (Assert terminators; unwrap/expect/panic!/unreachable!/assert!; indexing, slicing, RefCell borrows and the panicking-API table) in the functions reachable from the lexer, parser, checker and formatter entry points is enumerated; each is discharged by a small static proof (dominating length/arity/peek test, unsigned-add assumption, regex literal compiles, guard live ranges for RefCell) or by a reviewed row naming the guard it relies on; a new or unguarded site is reported with a call path. Decides the no-panic reading of C01 for all inputs; hangs and stack depth are only covered where listed.",
     "Trusted: rustc MIR and callee resolution (class-hierarchy fallback for unresolved trait calls); the panicking-API table stands in for dependency code; reviewed residue rows are human arguments (173 rows, each with its reason; named guards, guard fingerprints and the census of guard calls re-checked on every run; a row is re-found after a local is renamed only if its guards still hold). Known finding (thorough tier): stack depth on deeply nested syntax.",
     "DESIGN.md sections 3 and 4 C01")
 
-chk("C02", "MIR panic-site inventory over everything reachable from eval::eval (D-ARITY for built-in argument indexing, D-FRAME who-may-shrink, D-BORROW guard live ranges + transitive borrow summaries, D-DISPATCH, D-SLICEORDER); who-may-write rule for the value/expression stacks (kinds of writes per reviewed writer; helpers split out of a writer inherit its review); BREAK-VALUE; WHO-CALLS-EVAL / TOPLEVEL-REPLACE; guard fingerprints on reviewed rows; thorough: NATIVE-LOOPS and RECURSION",
+chk("C02", "MIR panic-site inventory over everything reachable from eval::eval (D-ARITY for built-in argument indexing, D-FRAME who-may-shrink, D-BORROW guard live ranges + transitive borrow summaries, D-DISPATCH, D-SLICEORDER); who-may-write rule for the value/expression stacks (kinds of writes per reviewed writer; helpers split out of a writer inherit its review); BREAK-VALUE; USED-FLAG (shared with C03: operands are flagged used unconditionally and every sub-expression is visited); WHO-CALLS-EVAL / TOPLEVEL-REPLACE; guard fingerprints on reviewed rows; thorough: NATIVE-LOOPS and RECURSION",
     "As C01, over the 590 functions the evaluator can reach: decides for all programs that no reachable Rust panic site is left unargued. The value-stack pops are a reviewed class backed by the who-may-write rule VALSTACK-WRITERS.",
     "Trusted: as C01. D-VALSTACK assumes each scheduled sub-expression pushes exactly one value (not proved; the known finding `1 + continue` inside a for body is the recorded counterexample class). Drop-glue recursion on deeply nested values is outside MIR call facts.",
     "DESIGN.md sections 3 and 4 C02")
 
-chk("C09", "MIR panic-site inventory over the JSON worker thread's reachable code; interval path-count dataflow (exactly one print_as_json per request path, callee summaries); worker-loop exit shape; SKIP-BALANCE and VALSTACK-WRITERS who-may-write rules; FRAMING-EXACT (payload read with read_exact); WHO-CALLS-EVAL / TOPLEVEL-REPLACE; C08's restore rules",
+chk("C09", "MIR panic-site inventory over the JSON worker thread's reachable code; interval path-count dataflow (exactly one print_as_json per request path, callee summaries); worker-loop exit shape; SKIP-BALANCE and VALSTACK-WRITERS who-may-write rules; FRAMING-EXACT (payload read with read_exact); WHO-CALLS-EVAL / TOPLEVEL-REPLACE; FRAME-COVER (shared with C10); C08's restore rules",
     "A panic on the worker thread loses every later request, so the inventory of C01/C02 is taken from handle_request_in_worker / eval_worker / handle_request; RESPONSE-ONCE proves min=max=1 responses on every CFG path of the request handler (Interrupt answered by the reader thread).",
     "Trusted: as C01/C02. Content and order of responses are not decided; the stdin framing loop is out of scope.",
     "DESIGN.md section 4 C09")
 
-chk("C28", "MIR panic-site inventory over lsp::run_lsp's reachable code; per-method region path-count (exactly one response iff an id is present, none for notifications); loop-exit shape; pipeline agreement with `garden check`; DOC-SYNC (stored and checked text = contentChanges.last().text, followed through a shared helper)",
+chk("C28", "MIR panic-site inventory over lsp::run_lsp's reachable code; per-method region path-count (exactly one response iff an id is present, none for notifications); loop-exit shape; pipeline agreement with `garden check`; DOC-SYNC (stored and checked text = contentChanges.last().text, followed through a shared helper); DIAG-COMPLETE (one published diagnostic per item on every path of the conversion loops)",
     "Panic-freedom of every handler the server can run is decided as in C01; ARM-SHAPE decides on handle_message's CFG that each of the 12 request methods answers exactly once when an id is present and that notifications never answer; the server loop leaves only on end of input or `exit`.",
     "Trusted: as C01; serde serialisation of the server's own response types does not fail. Range conversion clauses are under C29; equality of diagnostics beyond the pipeline shape is not decided.",
     "DESIGN.md section 4 C28")
 
-chk("C29", "MIR unit dataflow (bytes / chars / UTF-16 code units; call-site-to-parameter and return summaries inside lsp::): every LSP Position.character is a UTF-16 count, no comparison or sum mixes units; LINE-RELATIVE provenance of the column slice; EDIT-RANGE / ONE-TEXT (resolved operands, closure captures followed: the text positions are converted against is the text handed to the refactoring); SAME-CORE (call graph: the LSP producer and main call the same core function)",
+chk("C29", "MIR unit dataflow (bytes / chars / UTF-16 code units; call-site-to-parameter and return summaries inside lsp::): every LSP Position.character is a UTF-16 count, no comparison or sum mixes units; LINE-RELATIVE provenance of the column slice; EDIT-RANGE / ONE-TEXT (resolved operands, closure captures followed: the text positions are converted against is the text handed to the refactoring); LINE-BYTES (no byte offset from the lengths of lines() items); SAME-CORE (call graph: the LSP producer and main call the same core function)",
     "Structural necessary conditions of both halves of the property, each decided for all documents: columns the server sends are UTF-16 counts measured from the start of the line and the client's column is compared with a UTF-16 count; every TextEdit range comes from a text-taking converter applied to the same text the refactoring ran on; each LSP edit producer calls the function the command line calls. The offset<->position round trip and the edited text themselves are not computed.",
     "Trusted: rustc MIR; std's encode_utf16/len_utf16/char_indices; clients send UTF-16 positions. Line arithmetic (which line an offset is on, CRLF handling) and the refactorings' own output are not decided; one reviewed exception (garden_pos_to_lsp_range_no_src, never used for edits).",
     "DESIGN.md section 4 C29")
